@@ -2,6 +2,7 @@ package main
 
 import (
 	"fmt"
+	"regexp"
 	"go/ast"
 	"go/constant"
 	"go/token"
@@ -396,6 +397,16 @@ func (x *Exec) evalPseudo(name string, n *ast.CallExpr, st *State, env *Env) (Va
 		bv := x.c.freshName(vn)
 		body := x.defaultType(x.eval(n.Args[1], st, env.with(vn, Val{T: bv, Ty: tInt}))).T
 		return Val{T: fmt.Sprintf("(forall ((%s Int)) %s)", bv, body), Ty: tBool}, true
+	case "str3":
+		a := x.coerce(x.eval(n.Args[0], st, env), tByte)
+		b := x.coerce(x.eval(n.Args[1], st, env), tByte)
+		c3 := x.coerce(x.eval(n.Args[2], st, env), tByte)
+		return Val{T: app("gs.cat", app("gs.cat", app("gs.frombyte", a.T), app("gs.frombyte", b.T)), app("gs.frombyte", c3.T)), Ty: tString}, true
+	case "existsb":
+		vn := x.bindVar(n.Args[0])
+		bv := x.c.freshName(vn)
+		body := x.defaultType(x.eval(n.Args[1], st, env.with(vn, Val{T: bv, Ty: tByte}))).T
+		return Val{T: fmt.Sprintf("(exists ((%s (_ BitVec 8))) %s)", bv, body), Ty: tBool}, true
 	case "itoa":
 		v := x.defaultType(x.eval(n.Args[0], st, env))
 		return Val{T: app("gs.itoa", v.T), Ty: tString}, true
@@ -636,6 +647,7 @@ func (x *Exec) applySpec(sf *SpecFunc, n *ast.CallExpr, st *State, env *Env) Val
 		if sf.Uninterp {
 			x.c.declare(fname, fmt.Sprintf("(declare-fun %s (%s) %s)", fname, strings.Join(psorts, " "), x.c.sortOf(rty)))
 		} else {
+			x.ensureSpecsIn(sf.SMT, env, st)
 			x.c.declare(fname, fmt.Sprintf("(define-fun %s (%s) %s %s)", fname, strings.Join(ps, " "), x.c.sortOf(rty), sf.SMT))
 		}
 	}
@@ -755,4 +767,30 @@ func (x *Exec) evalSum(n *ast.CallExpr, st *State, env *Env) Val {
 			fmt.Sprintf("(forall ((a Int) (b Int) (c Int)) (! (=> (and (<= a b) (<= b c)) (= (%s a c) (+ (%s a b) (%s b c)))) :pattern ((%s a b) (%s b c))))", fn, fn, fn, fn, fn))
 	}
 	return Val{T: app(fn, lo, hi), Ty: tInt}
+}
+
+
+// ensureSpecsIn declares the spec functions referenced as spec.<name> inside a raw SMT body (scalar go-expression or smt specs)
+func (x *Exec) ensureSpecsIn(body string, env *Env, st *State) {
+	re := regexp.MustCompile(`spec\.([A-Za-z_][A-Za-z0-9_]*)`)
+	for _, m := range re.FindAllStringSubmatch(body, -1) {
+		name := m[1]
+		if x.c.declared["spec."+name] {
+			continue
+		}
+		sf := x.g.cs.lookupSpec(env.specPkgName(x), name)
+		if sf == nil {
+			panic(unsupported("spec function " + name + " referenced in an smt body is not defined"))
+		}
+		// build a dummy call with parameter-typed zero arguments to force the declaration
+		call := &ast.CallExpr{Fun: ast.NewIdent(name)}
+		ne := &Env{contract: true, names: map[string]Val{}, pkg: env.pkg}
+		for i, p := range sf.Params {
+			pn := fmt.Sprintf("zz%d", i)
+			ty := x.resolveTypeText(p.Type)
+			ne.names[pn] = Val{T: x.c.zero(ty), Ty: ty}
+			call.Args = append(call.Args, ast.NewIdent(pn))
+		}
+		x.applySpec(sf, call, st, ne)
+	}
 }
